@@ -43,9 +43,9 @@ Qed.
 Lemma fits_cons c lst rest sl :
   ch_slots c = lst :: rest ->
   s_ti sl = s_tf lst -> s_ti sl <= s_tf sl -> (c_clock (ch_cfg c) | s_tf sl) ->
-  len_ok (ch_cfg c) sl -> le_opt (s_tf sl) (en_max e) -> fits c sl.
+  len_ok (ch_cfg c) sl -> le_opt (s_tf sl) (en_max e) -> amp_ok (ch_cfg c) sl -> fits c sl.
 Proof.
-  intros Hs H1 H2 H3 H4 H5. unfold SchedInv.fits. rewrite Hs. tauto.
+  intros Hs H1 H2 H3 H4 H5 H6. unfold SchedInv.fits. rewrite Hs. tauto.
 Qed.
 
 (** add_pulse *)
@@ -58,11 +58,13 @@ Proof.
   mbind H s1 lst H1; apply last_slot_inv in H1; destruct H1 as [-> H1]; [|apply sx_refl].
   destruct H1 as (c & rest & Hc & Hs).
   mbind H s2 sl H2; apply (mnps_spec e) in H2; auto; destruct H2 as [-> H2]; [|apply sx_refl].
-  destruct H2 as (c0 & lst0 & rest0 & dd & p' & Hc0 & Hs0 & Hk & Hd & Hti & Htf & Htg & Hdd & Hb).
+  destruct H2 as (c0 & lst0 & rest0 & dd & p' & Hc0 & Hs0 & Hk & Hd & Hpa & Hti & Htf & Htg & Hdd & Hb).
   rewrite Hc in Hc0. inv Hc0. rewrite Hs in Hs0. inv Hs0.
   specialize (Hb eq_refl).
-  pose proof (find_chan_ok e _ _ _ Hok Hc) as (Hg & Ht & Hbd).
-  destruct (Hp _ Hc) as [Pm Pc]. pose proof Hg as [Gc Gm].
+  pose proof (find_chan_ok e _ _ _ Hok Hc) as (Hg & Ht & Hbd & _).
+  destruct (Hp _ Hc) as (Pm & Pc & Pa). pose proof Hg as [Gc Gm].
+  assert (Hamp : amp_ok (ch_cfg c0) sl).
+  { unfold amp_ok. rewrite Hk. unfold pamp_ok in *. rewrite Hpa. exact Pa. }
   rewrite Hs in Ht. pose proof (tiled_head_tf _ _ _ Ht) as [Hn Hdv].
   assert (Hlen : len_ok (ch_cfg c0) sl).
   { unfold len_ok. rewrite Hk. lia. }
@@ -79,13 +81,13 @@ Proof.
       eapply sx_trans; [exact H3|].
       replace s' with (fst (append_slot n sl s3)) by (rewrite H; reflexivity).
       eapply append_slot_sx; [exact Hc3|].
-      eapply fits_cons; [unfold set_slots; cbn; reflexivity|cbn; lia|lia| |exact Hlen|exact Hb].
+      eapply fits_cons; [unfold set_slots; cbn; reflexivity|cbn; lia|lia| |exact Hlen|exact Hb|exact Hamp].
       cbn. rewrite Htf, Hti. repeat apply Z.divide_add_r; auto.
     + apply ret_inv in H3. destruct H3 as [-> _].
       replace s' with (fst (append_slot n sl s)) by (rewrite H; reflexivity).
       eapply append_slot_sx; [exact Hc|].
       assert (dd = 0) by (destruct Hdd as [->|[Hm _]]; lia). subst dd.
-      eapply fits_cons; [exact Hs|lia|lia| |exact Hlen|exact Hb].
+      eapply fits_cons; [exact Hs|lia|lia| |exact Hlen|exact Hb|exact Hamp].
       rewrite Htf, Hti, Z.add_0_r. apply Z.divide_add_r; auto.
   - destruct (dd >? 0).
     + apply add_delay_sx in H3; auto.
@@ -103,7 +105,7 @@ Proof.
       by (rewrite H; reflexivity).
     eapply append_slot_sx; [exact Hc|].
     unfold fits. rewrite Hs. split; [repeat split|]; cbn.
-    destruct u. symmetry in H2. apply check_duration_ok in H2. exact H2.
+    destruct u. symmetry in H2. apply check_duration_ok in H2. split; [exact H2|exact I].
   - mbind H s2 u H2; [|eapply safe_wait_for_fall; eauto].
     pose proof H2 as Hw. apply safe_wait_for_fall in Hw; auto.
     assert (Hok2 : Forall chan_ok s2) by (eapply sx_ok; eauto).
@@ -114,7 +116,7 @@ Proof.
     rewrite Hc2 in H4. inv H4.
     destruct (list_Z_eqb (s_tg lst) qs).
     { apply ret_inv in H. destruct H as [-> _]. apply sx_refl. }
-    pose proof (find_chan_ok e _ _ _ Hok2 Hc2) as (Hg & Ht & Hbd).
+    pose proof (find_chan_ok e _ _ _ Hok2 Hc2) as (Hg & Ht & Hbd & _).
     rewrite Hs2 in Ht. pose proof (tiled_head_tf _ _ _ Ht) as [Hn Hdv].
     set (delta0 := Zclip (c_minret (ch_cfg c3) - (s_tf lst - last_target (ch_slots c3))) 0
                          (c_minret (ch_cfg c3))) in H.
@@ -138,10 +140,10 @@ Proof.
     destruct u6. symmetry in H6. apply check_duration_ok in H6.
     destruct Hg as [Gc Gm].
     destruct Hd as [->|[Hm Hcl]].
-    + eapply fits_cons; [exact Hs2|reflexivity|cbn; lia| | |exact H6].
+    + eapply fits_cons; [exact Hs2|reflexivity|cbn; lia| | |exact H6|exact I].
       * cbn. rewrite Z.add_0_r; auto.
       * unfold len_ok; cbn. lia.
-    + eapply fits_cons; [exact Hs2|reflexivity|cbn; lia| | |exact H6].
+    + eapply fits_cons; [exact Hs2|reflexivity|cbn; lia| | |exact H6|exact I].
       * cbn. apply Z.divide_add_r; auto.
       * unfold len_ok; cbn. lia.
 Qed.
@@ -180,7 +182,7 @@ Proof.
     mbind G t2 buf G2; apply lift_inv in G2; destruct G2 as [-> G2]; [|apply sx_refl].
     destruct (sx_find e _ _ _ _ W Hc) as (c' & Hc' & Hext).
     assert (Hcfg : ch_cfg c' = ch_cfg c) by (destruct Hext as (_ & _ & X & _); auto).
-    pose proof (find_chan_ok e _ _ _ Hok1 Hc') as (Hg & _).
+    pose proof (find_chan_ok e _ _ _ Hok1 Hc') as (Hg & _ & _ & Hca & _).
     symmetry in G2. rewrite <- Hcfg in G2. apply adjust_duration_spec in G2; auto.
     destruct G2 as (B1 & B2 & B3 & B4).
     destruct (f_ne o zero).
@@ -188,7 +190,8 @@ Proof.
       mbind G t4 lst G4; apply last_slot_inv in G4; destruct G4 as [-> G4]; [|apply sx_refl].
       eapply add_pulse_sx; [exact Hok1| |exact G].
       intros cc Hcc. rewrite Hc' in Hcc. inv Hcc.
-      unfold pulse_fits, mk_buffer_pulse, mk_dd_pulse, with_falls; cbn. auto.
+      unfold pulse_fits, pamp_ok, mk_buffer_pulse, mk_dd_pulse, with_falls; cbn.
+      split; [exact B1|split; [exact B3|exact Hca]].
     - eapply add_delay_sx; eauto. }
   mbind H s1 u1 H1; [|eapply Hfirst; eauto].
   apply Hfirst in H1. eapply sx_trans; [exact H1|].
